@@ -44,7 +44,7 @@ def run_job(job, gendir, workroot, vacuity=False, trace=True):
     shutil.rmtree(wd, ignore_errors=True); os.makedirs(wd)
     log = []; t0 = time.time()
     res = {'id': jid, 'job': job['id'], 'status': 'inconclusive', 'obligations': [], 'failed': [], 'log': log, 'reason': '', 'vacuity': vacuity}
-    timeout = job.get('timeout', 600)
+    timeout = job.get('timeout', 1500)
     defs = ['-DVERIF_CBMC'] + list(job.get('defines', [])) + (['-DVACUITY'] if vacuity else [])
     src = os.path.join(VERIF, job['src'])
     cc = ['goto-cc', '--function', job['entry']] + defs + ['-I', os.path.join(VERIF, 'contracts'), '-I', gendir, '-I', os.path.join(VERIF, 'stubs'), src, '-o', 'a.gb']
